@@ -130,6 +130,7 @@ func (m *tplManager) Parse(fsys fs.FS, match func(path string) bool) (err error)
 				if err != nil {
 					return err
 				}
+				defer file.Close()
 				if err := m.Add(filePath, file); err != nil {
 					return err
 				}
